@@ -277,18 +277,24 @@ def shiftKept : List Bool → Sub → Idx → Idx
 
 /-! ## `Data.compute_statistic` -/
 
-/-- The selection as the model sees it. `slice`: a `SliceSubsetState` (its slices, normalised,
-and the equivalent full-shape mask); `mask`: any other subset state, as its full-shape mask. -/
+/-- Mask of a `SliceSubsetState`: every coordinate lies on its slice's progression. -/
+def subMask : Sub → Idx → Bool
+  | (b, n, st) :: ss, i :: is => onProg b n st i && subMask ss is
+  | [], [] => true
+  | _, _ => false
+
+/-- The selection as the model sees it. `slice`: a `SliceSubsetState` (its slices, normalised; its
+mask is `subMask`); `mask`: any other subset state, as its full-shape mask. -/
 inductive SelM where
   | none
-  | slice (vs : Sub) (m : Idx → Bool)
+  | slice (vs : Sub)
   | mask (m : Idx → Bool)
 
 def SelM.isNone : SelM → Bool | .none => true | _ => false
-def SelM.isSlice : SelM → Bool | .slice _ _ => true | _ => false
+def SelM.isSlice : SelM → Bool | .slice _ => true | _ => false
 def SelM.maskFn : SelM → Idx → Bool
   | .none => fun _ => true
-  | .slice _ m => m
+  | .slice vs => subMask vs
   | .mask m => m
 
 inductive ViewKind where | none | ellipsis | tuple
@@ -305,11 +311,11 @@ def implDirect (cfg : Cfg) (data : Idx → Val) (sel : SelM) (vk : ViewKind)
   let base := cfg.finite || cfg.positive
   match sel with
   | .none => uStatImpl cfg base red vsh (fun j => data (viewIdx v j)) (fun _ => true)
-  | .slice vs m =>
+  | .slice vs =>
     if vk == .none then
       -- shortcut: `subset_state.to_array(self, cid)`, no mask
       uStatImpl cfg base red (subShape vs) (fun j => data (subIdx vs j)) (fun _ => true)
-    else implMasked m
+    else implMasked (subMask vs)
   | .mask m => implMasked m
 where
   implMasked (m : Idx → Bool) : Result :=
@@ -379,8 +385,8 @@ scalar NaN when the slices select nothing). -/
 def specStat (cfg : Cfg) (sh : List Nat) (data : Idx → Val) (sel : SelM) (vk : ViewKind)
     (v : List VItem) (red : List Bool) : Result :=
   match sel, vk with
-  | .slice vs m, .none =>
-    let full := uStat cfg true red sh data (fun j => inRange j sh && m j)
+  | .slice vs, .none =>
+    let full := uStat cfg true red sh data (fun j => inRange j sh && subMask vs j)
     if prod (subShape vs) = 0 then { shape := [], cell := fun _ => .nan }   -- empty slice: scalar NaN
     else
     { shape := keptShape red (subShape vs),
@@ -391,18 +397,38 @@ def specStat (cfg : Cfg) (sh : List Nat) (data : Idx → Val) (sel : SelM) (vk :
     uStat cfg true red vsh (fun j => data (viewIdx v j))
       (fun j => inRange j vsh && sel.maskFn (viewIdx v j))
 
+/-- Well-formedness of a sub-grid inside a shape: positive steps, last element inside. -/
+def subOk : List Nat → Sub → Bool
+  | [], [] => true
+  | h :: hs, (b, n, st) :: ss =>
+    decide (0 < st) && (n == 0 || decide (b + (n - 1) * st < h)) && subOk hs ss
+  | _, _ => false
+
 /-- The code's condition for using the NaN-aware reducers (`finite or positive or mask is not None`);
 the `SliceSubsetState` shortcut passes no mask. -/
 def codeNanAware (cfg : Cfg) (sel : SelM) (vk : ViewKind) : Bool :=
   cfg.finite || cfg.positive ||
-    (match sel with | .none => false | .slice _ _ => vk != .none | .mask _ => true)
+    (match sel with | .none => false | .slice _ => vk != .none | .mask _ => true)
 
 /-- The array the statistic is taken over contains no NaN (hypothesis of the partial theorem for the
 plain, non-NaN-aware path). -/
 def noNanInScope (data : Idx → Val) (sel : SelM) (vk : ViewKind) (v : List VItem) : Bool :=
   match sel, vk with
-  | .slice vs _, .none => (allIdx (subShape vs)).all fun j => !(data (subIdx vs j)).isNan
+  | .slice vs, .none => (allIdx (subShape vs)).all fun j => !(data (subIdx vs j)).isNan
   | _, _ => (allIdx (viewShape' v)).all fun j => !(data (viewIdx v j)).isNan
+
+/-- Hypothesis of the refinement theorem `implStat = specStat` (decidable): positive sizes, axis
+flags match the viewed array, `view=None` is the whole array, the view is not empty, the slices of a
+`SliceSubsetState` lie inside the array, and — finding F10c — either the code takes the NaN-aware
+path or the array the statistic is taken over contains no NaN. -/
+def statP (cfg : Cfg) (sh : List Nat) (data : Idx → Val) (sel : SelM) (vk : ViewKind)
+    (v : List VItem) (red : List Bool) : Bool :=
+  sh.all (fun s => decide (0 < s)) &&
+  (red.length == (viewShape' v).length) &&
+  (vk != .none || v == fullView sh) &&
+  (prod (viewShape' v) != 0) &&
+  (match sel with | .slice vs => subOk sh vs | _ => true) &&
+  (codeNanAware cfg sel vk || noNanInScope data sel vk v)
 
 /-! ## Histograms -/
 
@@ -532,11 +558,6 @@ def Sel.eval (sh : List Nat) (data : Idx → Val) : Sel → Idx → Bool
   | .xor a b, i => (a.eval sh data i) != (b.eval sh data i)
   | .not a, i => !(a.eval sh data i)
 
-/-- Mask of a `SliceSubsetState`: every coordinate lies on its slice's progression. -/
-def subMask : Sub → Idx → Bool
-  | (b, n, st) :: ss, i :: is => onProg b n st i && subMask ss is
-  | [], [] => true
-  | _, _ => false
 
 end GlueVerif.Stats
 
